@@ -230,6 +230,22 @@ func (m *Map) Drop(seqno uint16, pid uint16) bool {
 		}
 	}
 
+	last := m.entries[m.lastEntry]
+	if uint16(seqno-(last.first+last.count)) > 2*8192 {
+		// After a long run of drops, all intervals are too old for
+		// anything to be mapped through them, and they would alias
+		// with current seqnos after 2^16 packets.  Forget them.
+		m.entries = []entry{
+			{
+				first:    seqno,
+				count:    0,
+				delta:    m.delta,
+				pidDelta: m.pidDelta,
+			},
+		}
+		m.lastEntry = 0
+	}
+
 	m.pidDelta += pid - m.nextPid
 	m.nextPid = pid
 
